@@ -248,7 +248,7 @@ def comp_strategy():
                     ops.append([g, [q]])
             if draw(st.booleans()):
                 a, b = b, a
-            ops.append([draw(st.sampled_from(["cz", "cz", "cx"])), [a, b]])
+            ops.append([draw(st.sampled_from(["cz", "cz", "cx", "swap"])), [a, b]])
         for q in range(n):
             for g in draw(st.sampled_from(LOCAL6)):
                 ops.append([g, [q]])
@@ -286,7 +286,10 @@ def check_competitor(case):
         return []      # C07/C08's business
     o_ops = libif.ops_of(out)
     c = cost.twoq_count(o_ops)
-    if c <= k:
+    gens0 = members.group_of_circuit(n, ops)
+    orbit0 = lc.orbit_of(gens0, n)
+    bmin0 = _DIST.get((n, name), {}).get(orbit0)
+    if c <= k and (bmin0 is None or c <= bmin0):
         return []
     psi_in = dense.run([(o[0], o[1], ()) for o in ops], n)
     if abs(dense.fidelity(psi_in, dense.run(o_ops, n)) - 1) > 1e-9:
@@ -296,12 +299,15 @@ def check_competitor(case):
     cid = class_of_orbit(n, name).get(orbit, "?")
     dmin = case.get("_bfs_min", {}).get(str(orbit)) if isinstance(case.get("_bfs_min"), dict) else None
     bmin = _DIST.get((n, name), {}).get(orbit)
-    if bmin is not None and bmin <= k and bmin < c:
+    if bmin is not None and bmin < c:
         key = f"{n}/{name}/class={cid}/delivered={c}/min={bmin}"
+        msg = (f"{n}/{name}: compress_preparation_circuit delivers {c} two-qubit gates for a state of class {cid} whose minimum on this "
+               f"connectivity is {bmin} (input circuit: {k} two-qubit gates, swap = 3, all on coupled pairs)")
     else:
         key = f"{n}/{name}/class={cid}/competitor-beats-delivered"
-    return [(key, f"{n}/{name}: a circuit with {k} two-qubit gates on coupled pairs prepares a state (class {cid}) that the library "
-                  f"compresses to {c} two-qubit gates", {"observed": c, "expected": k})]
+        msg = (f"{n}/{name}: a circuit with {k} two-qubit gates on coupled pairs prepares a state (class {cid}) that the library "
+               f"compresses to {c} two-qubit gates")
+    return [(key, msg, {"observed": c, "expected": min(k, bmin) if bmin is not None else k})]
 
 
 def classify_comp(case):
